@@ -45,6 +45,17 @@ func (fx *FuncExec) ghostAfter(st *State, s ast.Stmt, before bool) {
 			continue
 		}
 		ac.Used = true
+		if ac.Assert {
+			pos := s.End()
+			if before {
+				pos = s.Pos()
+			}
+			env := fx.specEnv(st, fx.entry, pos, "ghost assert")
+			g := env.Bool(ac.Expr)
+			fx.oblige(st, "assert", ac.Label, g, ac.Text, pos)
+			st.assume(g)
+			continue
+		}
 		comp, ok := fx.reg.ghostVars[ac.Var]
 		if !ok {
 			panic(specError{"after: unknown ghost variable " + ac.Var})
@@ -556,6 +567,9 @@ func (fx *FuncExec) modifiedIn(nodes ...ast.Node) (locals map[*types.Var]bool, c
 	}
 	if fx.contract != nil {
 		for _, ac := range fx.contract.After {
+			if ac.Assert {
+				continue
+			}
 			if comp, ok := fx.reg.ghostVars[ac.Var]; ok {
 				comps[comp] = true
 			}
